@@ -159,7 +159,7 @@ class CallMixin:
             self.check(st, z3.Not(opt_is_none(v)), 'TypeError', 'none', node)
             return self.length(opt_val(v), st, node)
         if k == 'list':
-            st.assume(st.llen(v.z) >= 0)
+            self.assume_heap_typing(st, st.llen(v.z) >= 0)
             return st.llen(v.z)
         if k == 'str': return z3.Length(v.z)
         if k == 'text': return self.text_len(v.z)
